@@ -2,6 +2,8 @@
 from __future__ import annotations
 
 import translate.expr_tables as tr_expr
+import asyncio
+
 from harness import core, exprcommon as X
 from harness.core import Atom
 
@@ -115,6 +117,8 @@ def run(ctx, res):
             raise core.HarnessError(f"model pipeline differs from its reference on {src!r} although proved equal: {comp} vs {want}")
     # 3. compile_expression returns the value itself ---------------------------------------------------
     ce_checked = compile_expression_pass(ctx, res, jinja2, trees, srcs, rng)
+    # 4. every spelling of one call passes the same arguments -------------------------------------------
+    ce_checked += call_spelling_pass(ctx, res, jinja2, rng)
     res.coverage.update({
         "evaluations": evaluations + ce_checked,
         "distinct_nontrivial": len(distinct),
@@ -129,6 +133,73 @@ def run(ctx, res):
     })
     if oom > 0.6 * max(evaluations, 1):
         raise core.HarnessError(f"generator drifted: {oom}/{evaluations} cases outside the model")
+
+
+def call_spelling_pass(ctx, res, jinja2, rng):
+    """Keyword, star and double-star arguments are outside the Lean value model.  What the documentation says about them is
+    only that they are the Python call conventions, so the check is metamorphic: `f(1, 2, k=3)`, `f(*[1, 2], k=3)`,
+    `f(1, *[2], **{'k': 3})`, … pass the same (args, kwargs) to a recording callable, a recording filter and a recording
+    test, in every environment flavour; argument expressions are evaluated once each, left to right."""
+    from jinja2.sandbox import SandboxedEnvironment
+    seen = []
+
+    def rec(*a, **k):
+        seen.append(("call", a, tuple(sorted(k.items()))))
+        return "R"
+
+    def tick(x):
+        seen.append(("eval", x))
+        return x
+
+    def mk(cls, **kw):
+        env = cls(**kw)
+        env.filters["recf"] = lambda v, *a, **k: rec(v, *a, **k)
+        env.tests["rect"] = lambda v, *a, **k: bool(rec(v, *a, **k))
+        return env
+    envs = [("default", mk(jinja2.Environment)), ("async", mk(jinja2.Environment, enable_async=True)),
+            ("sandboxed", mk(SandboxedEnvironment)), ("unoptimized", mk(jinja2.Environment, optimized=False))]
+    n = 0
+    for _ in range(ctx.pick(60, 600)):
+        pos = [rng.choice(["1", "'a'", "i", "tick(2)", "xs[0]", "none", "tick('p')"]) for _ in range(rng.randrange(0, 4))]
+        kws = [(k, rng.choice(["3", "'z'", "j", "tick(4)", "true"])) for k in rng.sample(["k", "m", "class", "w"], rng.randrange(0, 3))]
+
+        def spell(split_pos, star_kw, dict_name_kw):
+            parts = list(pos[:split_pos])
+            if split_pos < len(pos) or rng.random() < 0.3:
+                parts.append("*[" + ", ".join(pos[split_pos:]) + "]")
+            plain = [] if star_kw else [f"{k}={v}" for k, v in kws if k != "class" or not dict_name_kw]
+            parts += plain
+            rest = [(k, v) for k, v in kws if f"{k}={v}" not in plain]
+            if rest or star_kw and rng.random() < 0.3:
+                parts.append("**{" + ", ".join(f"'{k}': {v}" for k, v in rest) + "}")
+            return ", ".join(parts)
+        spellings = {spell(len(pos), False, False)}
+        for _ in range(4):
+            spellings.add(spell(rng.randrange(0, len(pos) + 1), rng.random() < 0.5, rng.random() < 0.5))
+        data = {"i": 7, "j": 9, "xs": [5, 6], "f": rec, "tick": tick}
+        for form, tmpl in (("call", "{{ f(%s) }}"), ("filter", "{{ 0|recf(%s) }}"), ("test", "{{ 0 is rect(%s) }}"),
+                           ("call-in-set", "{%% set q = f(%s) %%}{{ q }}"), ("method", "{{ o.f(%s) }}")):
+            for ename, env in envs:
+                outcomes = {}
+                for sp in sorted(spellings):
+                    if form in ("filter", "test") and ("*" in sp):
+                        continue        # filters and tests take no star arguments in the grammar
+                    del seen[:]
+                    try:
+                        t = env.from_string(tmpl % sp)
+                        d = dict(data, o=type("O", (), {"f": staticmethod(rec)})())
+                        out = asyncio.run(t.render_async(**d)) if env.is_async else t.render(**d)
+                        outcomes[sp] = ("ok", out, list(seen))
+                    except Exception as e:  # noqa
+                        outcomes[sp] = ("err", type(e).__name__, list(seen))
+                    n += 1
+                vals = {repr(v) for v in outcomes.values()}
+                if len(vals) > 1:
+                    a, b = sorted(outcomes.items())[0], sorted(outcomes.items(), key=lambda kv: repr(kv[1]))[-1]
+                    res.violate(f"C02:call-spelling:{form}:{ename}",
+                                f"{form} with arguments `{a[0]}` gives {a[1]!r} but the equivalent spelling `{b[0]}` gives {b[1]!r} "
+                                f"in the {ename} environment", {"spellings": sorted(spellings), "form": form, "env": ename})
+    return n
 
 
 def compile_expression_pass(ctx, res, jinja2, trees, srcs, rng):
